@@ -97,6 +97,8 @@ func (c *claimDeveloperRewards) ProcessBuiltinFunction(
 
 	if vmcommon.IsSmartContractAddress(vmInput.CallerAddr) {
 		vmOutput.OutputAccounts = make(map[string]*vmcommon.OutputAccount)
+		// the gas moved to the dropped output transfer (asynchronous call) has to remain available
+		vmOutput.GasRemaining = gasRemaining
 	}
 
 	return vmOutput, nil
